@@ -291,6 +291,9 @@ class DIP:
         # Parse nodes
         while len(queue.nodes):
             node = queue.nodes.pop()
+            # Close cases that end at the indent of this node
+            if node.name is not None and node.keyword not in self.nodes_nohierarchy+['case']:
+                target.branching.close_cases(node)
             # Perform specific node parsing only outside of case or inside of valid case
             if not target.branching.false_case() or node.keyword=='case':
                 node.inject_value(target)
